@@ -107,3 +107,5 @@ mod maybe_nan;
 mod quantile;
 mod sort;
 mod summary_statistics;
+#[cfg(feature = "verif_hooks")]
+pub mod verif_hooks;
